@@ -44,6 +44,37 @@ pub open spec fn vv(v: Value) -> CV
         _ => CV::Other,
     }
 }
+pub open spec fn vv_seq(s: Seq<Value>) -> Seq<CV> { Seq::new(s.len(), |i: int| vv(s[i])) }
+#[verifier::opaque]
+pub open spec fn vv_pairs(s: Seq<(Value, Value)>) -> Seq<(CV, CV)> { Seq::new(s.len(), |i: int| (vv(s[i].0), vv(s[i].1))) }
+pub proof fn lemma_vv_array(a: Vec<Value>) ensures vv(Value::Array(a)) == CV::Array(vv_seq(a@))
+{ reveal_with_fuel(vv, 2); assert(vv(Value::Array(a))->Array_0 =~= vv_seq(a@)); }
+pub proof fn lemma_vv_map(m: Vec<(Value, Value)>) ensures vv(Value::Map(m)) == CV::Map(vv_pairs(m@))
+{ reveal(vv_pairs); reveal_with_fuel(vv, 2); assert(vv(Value::Map(m))->Map_0 =~= vv_pairs(m@)); }
+pub proof fn lemma_vv_seq_push(s: Seq<Value>, x: Value) ensures vv_seq(s.push(x)) == vv_seq(s).push(vv(x))
+{ assert(vv_seq(s.push(x)) =~= vv_seq(s).push(vv(x))); }
+pub proof fn lemma_vv_pairs_push(s: Seq<(Value, Value)>, x: (Value, Value)) ensures vv_pairs(s.push(x)) == vv_pairs(s).push((vv(x.0), vv(x.1)))
+{ reveal(vv_pairs); assert(vv_pairs(s.push(x)) =~= vv_pairs(s).push((vv(x.0), vv(x.1)))); }
+pub proof fn lemma_vv_pairs_empty() ensures vv_pairs(Seq::<(Value, Value)>::empty()) == Seq::<(CV, CV)>::empty()
+{ reveal(vv_pairs); assert(vv_pairs(Seq::<(Value, Value)>::empty()) =~= Seq::<(CV, CV)>::empty()); }
+pub proof fn lemma_vv_pairs_index(s: Seq<(Value, Value)>, i: int) requires 0 <= i < s.len() ensures vv_pairs(s).len() == s.len(), vv_pairs(s)[i] == (vv(s[i].0), vv(s[i].1))
+{ reveal(vv_pairs); }
+/// A-VALUE-EXT: `Value`s (Vec / String / Integer inside) are determined by their data-model view.
+pub broadcast axiom fn axiom_vv_injective(a: Value, b: Value)
+    ensures #[trigger] vv(a) == #[trigger] vv(b) ==> a == b;
+pub assume_specification [ <Value as Clone>::clone ] (a: &Value) -> (b: Value)
+    ensures b == *a;
+pub open spec fn arr_of(v: Value) -> Seq<Value> { match v { Value::Array(a) => a@, _ => Seq::<Value>::empty() } }
+pub open spec fn map_of(v: Value) -> Seq<(Value, Value)> { match v { Value::Map(m) => m@, _ => Seq::<(Value, Value)>::empty() } }
+pub open spec fn bytes_of(v: Value) -> Seq<u8> { match v { Value::Bytes(b) => b@, _ => Seq::<u8>::empty() } }
+pub proof fn lemma_vv_value_array(v: Value)
+    requires v is Array,
+    ensures vv(v) == CV::Array(vv_seq(arr_of(v))),
+{ match v { Value::Array(a) => { lemma_vv_array(a); } _ => {} } }
+pub proof fn lemma_vv_value_map(v: Value)
+    requires v is Map,
+    ensures vv(v) == CV::Map(vv_pairs(map_of(v))),
+{ match v { Value::Map(a) => { lemma_vv_map(a); } _ => {} } }
 pub open spec fn in_i64(i: int) -> bool { i64::MIN <= i <= i64::MAX }
 
 pub assume_specification [ <i64 as TryFrom<Integer>>::try_from ] (i: Integer) -> (r: core::result::Result<i64, <i64 as TryFrom<Integer>>::Error>)
